@@ -13,7 +13,6 @@ import (
 	"sort"
 	"time"
 
-	"google.golang.org/grpc"
 	"google.golang.org/grpc/codes"
 	"google.golang.org/grpc/metadata"
 
@@ -145,13 +144,18 @@ func famRegistry(w *World, c *Case, rng *rand.Rand) {
 	doRPC := func(via string) (string, codes.Code) {
 		rpcN++
 		id := fmt.Sprintf("r%d", rpcN)
-		var ch grpc.ClientConnInterface
+		var ch grpctunnel.ReverseClientConnInterface
 		if via == "all" {
 			ch = hd.AsChannel()
 		} else if via == "<nil>" {
 			ch = hd.KeyAsChannel(nil)
 		} else {
 			ch = hd.KeyAsChannel(via)
+		}
+		// callers commonly ask Ready() before every call: queries must not influence routing
+		for i := rng.Intn(3); i > 0; i-- {
+			_ = ch.Ready()
+			w.Stat("registry_ready_queries_between_rpcs", 1)
 		}
 		s := &RPCSpec{ID: id, Method: "Unary", UseChanOpt: true, Client: []Op{{K: "invoke", N: 10}}, Handler: []Op{{K: "ident"}, {K: "recv"}, {K: "send", N: 5}, {K: "ret"}}}
 		w.Env.StartRPC(context.Background(), ch, s)
